@@ -272,8 +272,19 @@ def _hc(keys, hashfn="IdHash", conffn="NoConf", **kw):
     return h
 
 
-def free_scenarios():
+def free_scenarios(tier="quick"):
+    """Scenarios of the free-running driver; the thorough tier multiplies the operations of the contention
+    amplifiers (their windows are a few nanoseconds wide: hits are rare per operation)."""
     K6 = [1, 2, 3, 4, 5, 6]
+    scs = _free_scenarios(K6)
+    if tier == "thorough":
+        for sc in scs:
+            if sc["name"].startswith("hotkey"):
+                sc["opsPer"] *= 8
+    return scs
+
+
+def _free_scenarios(K6):
     return [
         {"name": "ample-ttl", "cfg": _hc(K6), "goroutines": 4, "opsPer": 250, "clear": False, "maxCostOps": False,
          "ttls": [1, 2, 5, -1], "costs": [1, 2], "ample": True, "sleep": True},
@@ -289,6 +300,16 @@ def free_scenarios():
          "maxCostOps": False, "ttls": [], "costs": [1], "ample": False, "sleep": False},
         {"name": "many", "cfg": _hc(list(range(1, 17)), MaxCost=12, BufCap=32768, bufferItems=64), "goroutines": 64, "opsPer": 40, "clear": False,
          "maxCostOps": True, "ttls": [1, 4], "costs": [1, 2, 3], "ample": False, "sleep": True},
+        # contention amplifiers: many goroutines on one or two keys of one shard, so that a critical section that was
+        # split (lock released and re-taken, check outside the lock) is entered by a second goroutine in the gap
+        {"name": "hotkey", "cfg": _hc([1, 2], MaxCost=1000, BufCap=64), "goroutines": 16, "opsPer": 300, "clear": False,
+         "maxCostOps": False, "ttls": [], "costs": [1], "ample": True, "sleep": False},
+        {"name": "hotkey-clear", "cfg": _hc([1, 257, 513], MaxCost=1000, BufCap=64), "goroutines": 12, "opsPer": 200, "clear": True,
+         "maxCostOps": False, "ttls": [], "costs": [1], "ample": True, "sleep": False},
+        {"name": "hotkey-collide", "cfg": _hc([1, 2], "CollHash", "CollConf", MaxCost=1000, BufCap=64), "goroutines": 12, "opsPer": 250,
+         "clear": False, "maxCostOps": False, "ttls": [1, 5], "costs": [1], "ample": True, "sleep": False},
+        {"name": "sweeprace", "cfg": _hc([1, 2, 3], MaxCost=100000, BufCap=64, D=1), "goroutines": 6, "opsPer": 400, "clear": False,
+         "maxCostOps": False, "ttls": [1, 1, 2, 0, 30], "costs": [1], "ample": True, "sleep": True, "pattern": "sweeprace"},
         {"name": "refuse", "cfg": _hc(K6, MaxCost=8, BufCap=4, RefuseVals=list(range(3, 4000, 3))), "goroutines": 4, "opsPer": 200, "clear": False,
          "maxCostOps": False, "ttls": [], "costs": [1, 2], "ample": False, "sleep": False},
     ]
